@@ -1,0 +1,107 @@
+/*
+ * Verification hooks.  This file is compiled only with `--cfg sudachi_verif`.
+ *
+ * The hooks record, as JSON events, the state transitions of the analysis pipeline
+ * (input-buffer edit batches, lattice inserts, path stages, dictionary mutation points)
+ * so that an external checker can validate recorded executions against a specification.
+ * Nothing is recorded unless a recorder was installed on the current thread.
+ */
+use crate::analysis::node::{LatticeNode, PathCost, ResultNode, RightId};
+use serde_json::{json, Value};
+use std::cell::RefCell;
+use std::sync::atomic::{AtomicU64, Ordering};
+use std::sync::Mutex;
+
+thread_local! {
+    static SINK: RefCell<Option<Vec<Value>>> = RefCell::new(None);
+}
+
+/// Global sequence counter and sink for dictionary-level events (shared by all threads).
+static GSEQ: AtomicU64 = AtomicU64::new(0);
+static GSINK: Mutex<Option<Vec<Value>>> = Mutex::new(None);
+
+/// Start recording on the current thread.
+pub fn install() {
+    SINK.with(|s| *s.borrow_mut() = Some(Vec::new()));
+}
+
+/// Stop recording on the current thread.
+pub fn uninstall() {
+    SINK.with(|s| *s.borrow_mut() = None);
+}
+
+/// Take the events recorded so far on the current thread.
+pub fn take() -> Vec<Value> {
+    SINK.with(|s| s.borrow_mut().as_mut().map(std::mem::take).unwrap_or_default())
+}
+
+#[inline]
+pub fn enabled() -> bool {
+    SINK.with(|s| s.borrow().is_some())
+}
+
+/// Record one event on the current thread (the closure only runs when recording).
+#[inline]
+pub fn emit<F: FnOnce() -> Value>(f: F) {
+    if enabled() {
+        let v = f();
+        SINK.with(|s| {
+            if let Some(sink) = s.borrow_mut().as_mut() {
+                sink.push(v)
+            }
+        });
+    }
+}
+
+pub fn install_global() {
+    *GSINK.lock().unwrap() = Some(Vec::new());
+}
+
+pub fn take_global() -> Vec<Value> {
+    GSINK.lock().unwrap().as_mut().map(std::mem::take).unwrap_or_default()
+}
+
+/// Record a dictionary-level event with a global sequence number (taken under the sink lock).
+pub fn emit_global(what: &str, detail: Value) {
+    let mut g = GSINK.lock().unwrap();
+    if let Some(sink) = g.as_mut() {
+        let seq = GSEQ.fetch_add(1, Ordering::SeqCst);
+        sink.push(json!({"ev": what, "gseq": seq, "detail": detail,
+                         "thread": format!("{:?}", std::thread::current().id())}));
+    }
+}
+
+fn cps(s: &str) -> Vec<u32> {
+    s.chars().map(|c| c as u32).collect()
+}
+
+/// Projection of a path (sequence of result nodes) onto plain numbers.
+pub fn path_json(path: &[ResultNode]) -> Value {
+    let nodes: Vec<Value> = path
+        .iter()
+        .map(|n| {
+            let info = n.word_info();
+            let wi = info.borrow_data();
+            json!({
+                "b": n.begin(), "e": n.end(), "bb": n.begin_bytes(), "eb": n.end_bytes(),
+                "wid": n.word_id().as_raw(), "total": n.total_cost(),
+                "lid": n.left_id(), "rid": n.right_id(), "cost": n.cost(),
+                "pos": wi.pos_id, "hwl": wi.head_word_length,
+                "surface": cps(info.surface()), "norm": cps(info.normalized_form()),
+                "dform": cps(info.dictionary_form()), "reading": cps(info.reading_form()),
+                "dfwid": wi.dictionary_form_word_id,
+                "na": wi.a_unit_split.len(), "nb": wi.b_unit_split.len(),
+            })
+        })
+        .collect();
+    Value::Array(nodes)
+}
+
+pub fn path_event(stage: &str, idx: usize, path: &[ResultNode]) {
+    emit(|| json!({"ev": "path", "stage": stage, "i": idx, "nodes": path_json(path)}));
+}
+
+/// Code points of a string (helper for hook sites).
+pub fn text_cps(s: &str) -> Value {
+    Value::Array(s.chars().map(|c| Value::from(c as u32)).collect())
+}
